@@ -18,7 +18,9 @@ TIMEOUT_MS = {"quick": 10000, "thorough": 30000}
 GRID = {
     "T_HOO": [{}, {"nu": 1, "rho": 0.9}, {"nu": 0.1, "rho": 0.5}, {"nu": 10, "rho": 0.3, "rounds": 1000}, {"nu": 0.3, "rho": 0.5}, {"nu": 0.15, "rho": 0.5}, {"nu": 0.02, "rho": 0.5}, {"nu": 0.05, "rho": 0.8, "rounds": 64},
               # truncation ratio in (-1, 0) (ceil = 0: only the root is ever split), in (0, 1) and in (2, 3) with rho != 1/2 (seed S-C06-7)
-              {"nu": 0.07, "rho": 0.5}, {"nu": 0.6, "rho": 0.25, "rounds": 30}, {"nu": 2.5, "rho": 0.7, "rounds": 40}],
+              {"nu": 0.07, "rho": 0.5}, {"nu": 0.6, "rho": 0.25, "rounds": 30}, {"nu": 2.5, "rho": 0.7, "rounds": 40},
+              # the ratio an exact integer (n * nu^2 = rho^(-2k)): k = 2, 0, 1 - the published bound is then unambiguous (seeds S-C06-8, S-C06-9)
+              {"rounds": 16}, {"nu": 0.25, "rho": 0.5, "rounds": 16}, {"nu": 0.5, "rho": 0.25, "rounds": 64}],
     "HCT": [{}, {"c": 0.1}, {"nu": 0.1, "rho": 0.5}, {"nu": 10, "rho": 0.3, "c": 0.5}, {"c": 0.35, "delta": 0.1}],
     "VHCT": [{}, {"c": 0.1}, {"bound": 2, "c": 0.05}],
 }
